@@ -1,4 +1,4 @@
-"""C09 -- computing changes is pure; performing touches only what was announced (R09.1-R09.15)."""
+"""C09 -- computing changes is pure; performing touches only what was announced (R09.1-R09.16)."""
 from __future__ import annotations
 
 import ast
@@ -30,6 +30,7 @@ EXPLANATION += " R09.12: the resource of an object known only as an AbstractModu
 EXPLANATION += " R09.13: every while loop that steps an index forward through a text compares the index with the length in its test."
 EXPLANATION += " R09.14: in the word finder an offset clamped to len(self.code) is never handed to a method that reads self.code at that offset."
 EXPLANATION += " R09.15 (=R16.11): the writer hands the announced text to the encoder without an explicit encoding -- what reaches the disk is the previewed text in the codec it declares, on every path (no fallback codec in a handler)."
+EXPLANATION += " R09.16: the path of a renamed module is made from a name that passed isidentifier() (no `..`, no separators)."
 ASSUMPTIONS = [
     "callee resolution without a type checker: see DESIGN.md section 2 (E2)",
     "resources handed in by the caller (constructor/get_changes parameters) are the caller's responsibility (CALLER provenance is accepted)",
@@ -955,6 +956,7 @@ def _optional_module_rule(ctx, res) -> None:
 def check(ctx, res) -> None:
     _check_body(ctx, res)
     module_without_file_rule(ctx, res, "R09.12")
+    path_from_a_name_rule(ctx, res, "R09.16")
     from .common import memo_key_rule
 
     memo_key_rule(ctx, res, "R09.11", ("rope.base.resources", "rope.base.project", "rope.base.fscommands", "rope.base.libutils"))
@@ -1033,3 +1035,27 @@ def module_without_file_rule(ctx, res, rule: str) -> None:
                     "(`import sys` ... the request at `sys`) the resource is None and the refactoring ends in AttributeError instead of a RefactoringError",
                     function=f.qualname)
     res.floor(rule, "resources taken from objects known only as AbstractModule", n, 1)
+
+
+def path_from_a_name_rule(ctx, res, rule: str) -> None:
+    """R09.16: performing a change touches only resources of the project.  Where a refactoring makes a PATH out of a name it was given (Rename of
+    a module: `<parent>/<new_name>.py`), the name is an identifier -- `../x` would climb out of the project root, `a/b` would create or
+    overwrite something elsewhere -- and the request is refused otherwise.  The construction of the MoveResource in the module-rename
+    step stands behind an `isidentifier()` test of the name."""
+    from . import common
+    idx = ctx.idx
+    f = idx.need_func("rope.refactor.rename.Rename._rename_module")
+    ps = param_names(f.node)
+    cfg = CFG(common.inlined(idx, f))
+    n = 0
+    for nd in cfg.nodes:
+        if nd.ast is None or nd.kind not in ("stmt", "test") or not any(call_name(c) == "MoveResource" for c in calls_in(nd.ast)):
+            continue
+        n += 1
+        ok = any(pol and isinstance(t, ast.Call) and call_name(t) == "isidentifier" and isinstance(t.func, ast.Attribute) and isinstance(t.func.value, ast.Name)
+                 and t.func.value.id in ps for t, pol in common.plain_guards(cfg, nd.id))
+        res.add(rule, f"Rename._rename_module|the-new-module-name-is-an-identifier#{n}", ok, f"{f.unit.rel}:{nd.lineno}",
+                "the file is moved only to a name that is an identifier" if ok else
+                "the new name is pasted into the destination path without a test that it is an identifier: `Rename(project, mod).get_changes('../evil')` is accepted, performing it moves "
+                "the file OUT of the project root (`'../outside/ext'` overwrites a file there), and the importers are rewritten to `import ../evil`", function=f.qualname)
+    res.floor(rule, "paths made from a new module name", n, 1)
